@@ -100,6 +100,17 @@ Theorem C06_unstake_op_exact : forall o a amount stake hm now l st, 0 <= amount 
 Proof. exact unstake_op_exact. Qed.
 Print Assumptions C06_unstake_op_exact.
 
+(* AUTHCALL: whoever the authorised account is and whatever it holds, the value is the sponsor's (the tx origin): it moves
+   iff 0 <= v <= the SPONSOR's balance, and then exactly v leaves the sponsor and reaches the target. *)
+Theorem C06_authcall_sponsor_pays : forall s au t v l st, nonneg l -> s <> t ->
+  let c' := exec_trace_st repaired (lower (OAuthCall s au t v)) (l, st) in
+  snd c' = st /\
+  (bal l s < v \/ v < 0 -> fst c' = l) /\
+  (0 <= v <= bal l s ->
+   bal (fst c') s = bal l s - v /\ bal (fst c') t = bal l t + v /\ forall x, x <> s -> x <> t -> bal (fst c') x = bal l x).
+Proof. exact authcall_sponsor_pays. Qed.
+Print Assumptions C06_authcall_sponsor_pays.
+
 (* [burned] grows only by a contract naming itself as beneficiary of SELFDESTRUCT (and the operator-node charge,
    by definition of exec_tx): a trace without self-suicide destroys nothing. *)
 Theorem C06_burn_only_self_suicide : forall var tr l, Forall no_self_suicide tr -> burned (exec_trace var tr l) = burned l.
